@@ -198,4 +198,16 @@ theorem composeFresh_spec (m o : SlotMap) (f : Nat) (hm : WF m) :
   · intro k v k' v' hk hk' hz hz' he
     exact h.inj (k, v) ((get_eq_some_iff hm k v).mp hk) (k', v') ((get_eq_some_iff hm k' v').mp hk') hz hz' he
 
+
+/-- **`bijection_from_fresh_to` refines the reference map**: the `i`-th element of the (ordered) set is the image of the
+`i`-th fresh slot handed out by the call, nothing else is a key, and the counter advances by one fresh slot per element. -/
+theorem bijectionFromFreshTo_spec (s : List Nat) (f : Nat) :
+    WF (bijectionFromFreshTo s f).1 ∧ (bijectionFromFreshTo s f).2 = f + 4 * s.length ∧
+    (∀ i, get (bijectionFromFreshTo s f).1 (f + 4 * i) = s[i]?) ∧
+    (∀ k v, get (bijectionFromFreshTo s f).1 k = some v → ∃ i, i < s.length ∧ k = f + 4 * i) := by
+  have h0 : BFInv f [] ([], f) := ⟨wf_nil, by simp, by intro i; simp [get], by intro k v h; simp [get] at h⟩
+  have h := bf_foldl f s [] ([], f) h0
+  rw [List.nil_append, ← bijectionFromFreshTo_eq] at h
+  exact ⟨h.wf, h.cnt, h.get, h.keys⟩
+
 end SV.SlotMap.C19
